@@ -130,6 +130,8 @@ m = {
  "engines": [
    {"name": "E1 bounded-exhaustive case explorer", "path": "mc/engine", "serves_properties": sorted(CHECKS.keys()),
     "kind_free_text": "enumerator -> shard over 16 worker processes -> execute on real gojq -> oracle (reference model / invariant) -> evidence; violations written as replay files and re-executed in fresh processes"},
+   {"name": "E3 controlled scheduler", "path": "mc/cmd/c06h", "serves_properties": ["C06"],
+    "kind_free_text": "cooperative scheduler over real goroutines (one runs at a time; points at every package-sync operation through the build-overlay shim mc/syncshim, Compile, Parse and every Iter.Next return), depth-first enumeration of all schedules with <= 2 preemptions by replaying choice prefixes, race detector inside every execution with hand-offs hidden by runtime.RaceDisable; driven shard by shard by E1 (mc/checks/c06.go)"},
  ],
  "checks": [],
  "not_applicable": [],
@@ -143,8 +145,8 @@ for i in ids:
           "quick_cmd": f"./run.sh {i} quick",
           "thorough_cmd": f"./run.sh {i} thorough",
           "evidence_file": f"/verif/evidence/{i}.json",
-          "replay_cmd_template": "cd /verif/mc && GOFLAGS=-mod=mod GOPROXY=off go run -tags verif ./cmd/vcheck replay {path}",
-          "engine": "E1 bounded-exhaustive case explorer",
+          "replay_cmd_template": "cd /verif && ./replay.sh {path}",
+          "engine": "E3 controlled scheduler" if i == "C06" else "E1 bounded-exhaustive case explorer",
           "level_claimed": {"category": cat, "text": text, "design_ref": ref},
           "level_note": note,
           "technique": tech,
